@@ -330,6 +330,7 @@ func main() {
 	// ---- versions: classification and capability predicates ----
 	checkVersions(c, &evals)
 	checkVersionLists(c, &evals)
+	checkVersionedHelpers(c, &evals)
 	// every declared string constant of the version-dependent families is covered by the reference table
 	sort.Strings(notCovered)
 	c.Set("types_without_check", notCovered)
